@@ -27,7 +27,7 @@ func init() {
 		Word32: true,
 		Level:  "exploration",
 		Rule: "E1 bounded-exhaustive enumeration: every bitmap of 1..N words over {0, 1, 1<<63, 1|1<<63, 1<<31, ^0, 3<<62} × every range 0 ≤ i ≤ end ≤ 64·len with i inside the bitmap: NextOne; and PrevOne for end ≥ 1. plus long sparse bitmaps (24/33 words, thorough 40/70; all zero except ≤2 islands at every pair of positions) × every range whose ends lie within 1 of a word boundary or half-word; and nearly empty bitmaps within 9 words of every power of two from 2^10 to 2^14 words with ranges spanning almost everything; oracle: linear scan over [i,end). " +
-			"Plus, on 64-bit builds, a sparse bitmap of 2^25 words (2^31 bits) × every range with both ends in {0, 1, 63, 64, 2^30.., MaxInt32-130.., MaxInt32} (17 values), against a scan that steps over empty words. " +
+			"Plus a length sweep: EVERY bitmap length 1..1100 words × 2 sparse patterns × ranges with both ends in {0, 1, 63, 64, middle, last word ± 1, end}. Plus, on 64-bit builds, a sparse bitmap of 2^25 words (2^31 bits) × every range with both ends in {0, 1, 63, 64, 2^30.., MaxInt32-130.., MaxInt32} (17 values), against a scan that steps over empty words. " +
 			"A case is one call; non-trivial when the bitmap has a 1 and the range is non-empty.",
 		Assumptions: []string{"other word patterns are not enumerated (the code's case splits are: first/last word masked, all-zero words skipped, result clipped to the range)"},
 		Run:         c13Run,
@@ -82,6 +82,7 @@ func c13Run(c *mc.Ctx) {
 	for _, L := range []int{c.Pick(24, 40), c.Pick(33, 70)} {
 		c13Long(c, L)
 	}
+	c13Sweep(c)
 	c13Big(c)
 	c13Giant(c)
 	c.Par(len(shards), func(si int) {
@@ -380,6 +381,45 @@ func c13RefPrev(w []uint64, i, end int32) int32 {
 		p--
 	}
 	return -1
+}
+
+// c13Sweep: EVERY bitmap length 1..1100 words × 2 sparse patterns (a 1 at both ends of the last / of the
+// first word) × ranges with both ends in {0, 1, 63, 64, middle, last word ± 1, end}: closes the gap between
+// the small complete spaces and the threshold sizes for the length coordinate.
+func c13Sweep(c *mc.Ctx) {
+	c.Par(1100, func(li int) {
+		l := li + 1
+		nb := int32(64 * l)
+		var evals int64
+		for pat := 0; pat < 2; pat++ {
+			w := c13BigBitmap(l, pat)
+			pts := []int32{0, 1, 63, 64, nb / 2, nb - 65, nb - 64, nb - 63, nb - 1, nb}
+			for _, i := range pts {
+				if i < 0 || i >= nb {
+					continue
+				}
+				for _, end := range pts {
+					if end < i || end > nb {
+						continue
+					}
+					cs := c13Case{I: i, End: end, Len: l, Pattern: pat}
+					if g, p := nextOne(w, i, end); p || g != c13RefNext(w, i, end) {
+						c.Fail(7<<50|int64(l)<<24|int64(pat)<<20|evals, "NextOne", "NextOne/length-sweep", cs, fmt.Sprintf("%d panic=%v", g, p), fmt.Sprintf("%d panic=false", c13RefNext(w, i, end)))
+					}
+					evals++
+					if end >= 1 {
+						if g, p := prevOne(w, i, end); p || g != c13RefPrev(w, i, end) {
+							c.Fail(7<<50|int64(l)<<24|int64(pat)<<20|evals, "PrevOne", "PrevOne/length-sweep", cs, fmt.Sprintf("%d panic=%v", g, p), fmt.Sprintf("%d panic=false", c13RefPrev(w, i, end)))
+						}
+						evals++
+					}
+				}
+			}
+		}
+		c.Count(evals, evals)
+		c.Expect(evals)
+		c.Add("length_sweep_cases", evals)
+	})
 }
 
 // c13Giant: the top of the int32 position range (64-bit builds): a sparse bitmap of
